@@ -141,6 +141,13 @@ theorem compiled_invariant (model obs : List (Param ν α)) (dm dob : List (Deri
     (hwf : WF (initSt model obs dm dob)) (ops : List (Op ν α)) : Inv (run (initSt model obs dm dob) ops) :=
   Inv_run ops _ hwf (by simp [Inv, initSt, keys])
 
+/-- `fit_names` never raises along any history of a fresh optimizer: every compiled row finds a prior under its
+    name in `_fit_priors` -/
+theorem fit_names_total (model obs : List (Param ν α)) (dm dob : List (Derived ν))
+    (hwf : WF (initSt model obs dm dob)) (ops : List (Op ν α)) :
+    (fitNames (run (initSt model obs dm dob) ops)).isSome = true :=
+  fitNamesAux_isSome _ _ (Covered_run ops _ hwf (by intro e he; simp [initSt] at he))
+
 end
 
 section
